@@ -464,9 +464,56 @@ func c15GenBuild(r *Rng) c15Scn {
 	return c15Scn{Kind: "build", Revs: []c15Rev{{PType: ptype, Name: "built", Source: "built", Docs: docs, Shape: r.Intn(2), Img: "built", Pre: "cold"}}, Steps: []c15Step{}}
 }
 
+// ---------------------------------------------------------------- cache ids (a TEST supporting the Compat assumption)
+
+// The theorems assume that revisions whose cache paths coincide carry the same
+// image. FsPackageCache derives the path with BuildPath, which strips what looks
+// like a file extension, so ids containing a dot could collide. Revision names
+// are produced by xpkg.FriendlyID; this test checks on generated package names
+// (DNS subdomains, dots included) and digests that they are dot- and slash-free
+// and that BuildPath is injective on them.
+func c15RunIDs(scn *c15Scn) (map[string]bool, []Mon) {
+	var mons []Mon
+	seen := map[string]string{}
+	for _, r := range scn.Revs {
+		id := xpkg.FriendlyID(r.Name, r.Source)
+		if strings.ContainsAny(id, "./") {
+			mons = append(mons, Mon{Sig: "C15:revision-name-not-a-label", Why: fmt.Sprintf("FriendlyID(%q,%q)=%q contains a dot or slash: its cache path drops the suffix", r.Name, r.Source, id)})
+		}
+		p := c15CachePath(id)
+		if other, ok := seen[p]; ok && other != id {
+			mons = append(mons, Mon{Sig: "C15:cache-path-collision", Why: fmt.Sprintf("revision names %q and %q share the cache path %s", other, id, p)})
+		}
+		seen[p] = id
+	}
+	return map[string]bool{"ok": true}, mons
+}
+
+func c15GenIDs(r *Rng) c15Scn {
+	scn := c15Scn{Kind: "ids", Steps: []c15Step{}}
+	parts := []string{"provider", "aws", "s3", "upbound", "crossplane-contrib", "function", "v1", "gcp.storage", "x", "a-b", "io"}
+	for i, n := 0, r.Range(2, 6); i < n; i++ {
+		var name []string
+		for j, m := 0, r.Range(1, 4); j < m; j++ {
+			name = append(name, Pick(r, parts))
+		}
+		scn.Revs = append(scn.Revs, c15Rev{Name: strings.Join(name, Pick(r, []string{".", "-", "."})), Source: fmt.Sprintf("%012x%052x", r.U64()&0xffffffffffff, r.U64()), Docs: []c15Doc{}})
+	}
+	return scn
+}
+
 // ---------------------------------------------------------------- registration
 
 func c15Emit(c *Ctx, scn *c15Scn, corpus bool) {
+	if scn.Kind == "ids" {
+		var obs map[string]bool
+		var mons []Mon
+		if p := Guard(func() { obs, mons = c15RunIDs(scn) }); p != "" {
+			mons = append(mons, Mon{Sig: "C15:panic", Why: p})
+		}
+		c.Emit(scn, obs, mons, "test:cache-ids")
+		return
+	}
 	if scn.Kind == "build" {
 		var obs c15BuildObs
 		var mons []Mon
@@ -512,14 +559,18 @@ func c15Sweeps(c *Ctx) {
 	}
 	clean := c15Step{K: "rec", Active: true, F: c15Faults{Read: -1}}
 	for _, img := range []string{"annotated", "plain2", "multi"} {
-		for b := 0; b < L; b += stride(L) {
+		st := stride(L)
+		if c.Tier == "thorough" && img != "annotated" {
+			st = 3
+		}
+		for b := 0; b < L; b += st {
 			s := c15Scn{Kind: "rev", Revs: []c15Rev{rev}, Steps: []c15Step{{K: "rec", Active: true, F: c15Faults{Read: b}}, clean}}
 			s.Revs[0].Img = img
 			s.Revs[0].Name = fmt.Sprintf("pkga-provider-%06x", b)
 			c15EmitCls(c, &s, fmt.Sprintf("sweep/read/%s", img))
 		}
 	}
-	for b := 0; b <= G; b += stride(G) {
+	for b := 0; b < G; b += stride(G) {
 		for _, del := range []bool{false, true} {
 			s := c15Scn{Kind: "rev", Revs: []c15Rev{rev}, Steps: []c15Step{{K: "rec", Active: true, F: c15Faults{Read: -1, Store: "write", StoreN: b, Del: del}}, clean, clean}}
 			s.Revs[0].Name = fmt.Sprintf("pkga-provider-%06x", b)
@@ -552,6 +603,11 @@ func init() {
 		for i := 0; i < c.N; i++ {
 			if i%25 == 24 {
 				s := c15GenBuild(c.Rng)
+				c15Emit(c, &s, false)
+				continue
+			}
+			if i%100 == 50 {
+				s := c15GenIDs(c.Rng)
 				c15Emit(c, &s, false)
 				continue
 			}
